@@ -20,7 +20,7 @@ package skiplist
 //@ ghost SLW Int
 //@ define slIn(s, x) = SLMem[ref(s)][ref(x)]
 //@ define slHdr(s) = s != nil && s.head != nil && s.maxLevel >= 1 && 1 <= s.level && s.level <= s.maxLevel && len(s.head.next) == s.maxLevel && SLMem[ref(s)][ref(s.head)] && !SLMem[ref(s)][0]
-//@ define slNodes(s) = forall(P_skiplist_Element(x), slIn(s, x) ==> (len(x.next) >= 1 && len(x.next) <= s.maxLevel && offof(x.next) == 0 && (x != s.head ==> (wf(x.Entry.Key) && len(x.next) <= s.level))), trig(slIn(s, x)))
+//@ define slNodes(s) = forall(P_skiplist_Element(x), slIn(s, x) ==> (0 < ref(x) && ref(x) < alloc && len(x.next) >= 1 && len(x.next) <= s.maxLevel && offof(x.next) == 0 && arrid(x.next) < alloc && (x != s.head ==> (wf(x.Entry.Key) && len(x.next) <= s.level))), trig(slIn(s, x)))
 //@ define slLinks(s) = forall(P_skiplist_Element(x), Int(l), (slIn(s, x) && 0 <= l && l < len(x.next) && x.next[l] != nil) ==> (slIn(s, x.next[l]) && x.next[l] != s.head && l < len(x.next[l].next) && (x != s.head ==> cmp(x.Entry.Key, x.next[l].Entry.Key) < 0)), trig(x.next[l]))
 //@ define slPairs(s) = forall(P_skiplist_Element(x), P_skiplist_Element(y), (slIn(s, x) && slIn(s, y) && x != y) ==> (arrid(x.next) != arrid(y.next) && ((y != s.head && (x == s.head || cmp(x.Entry.Key, y.Entry.Key) < 0)) ==> (x.next[0] != nil && cmp(x.next[0].Entry.Key, y.Entry.Key) <= 0)) && ((x != s.head && y != s.head) ==> cmp(x.Entry.Key, y.Entry.Key) != 0)), trig(slIn(s, x), slIn(s, y)))
 //@ define SL(s) = slHdr(s) && slNodes(s) && slLinks(s) && slPairs(s)
@@ -106,3 +106,59 @@ package skiplist
 //@ ensures 1 <= r && r <= s.maxLevel
 //@ loop 0:
 //@   invariant 1 <= level && level <= s.maxLevel
+//
+//@ smt (declare-const emptyset (Array Int Bool))
+//@ smt (assert (forall ((i Int)) (! (not (select emptyset i)) :pattern ((select emptyset i)))))
+//@ func skiplist.New -> r
+//@ props C17 C01
+//@ requires maxLevel >= 1
+//@ assigns SLMem
+//@ ensures SL(r) && r.maxLevel == maxLevel && ref(r) >= old(alloc) && ref(r.head) >= old(alloc)
+//@ ensures forall(Int(x), SLMem[ref(r)][x] ==> x == ref(r.head), trig(SLMem[ref(r)][x]))
+//@ ensures forall(Int(l), l != ref(r) ==> SLMem[l] == old(SLMem)[l], trig(SLMem[l]))
+//@ at_exit exit: ghost SLMem = store(SLMem, ref(r), store(emptyset, ref(r.head), true))
+//
+// Set: afterwards the list holds a member SLW whose key compares equal to entry.Key and whose value
+// and tombstone flag are the given ones; it is the member that was there (key and version kept) or
+// a new one carrying the whole entry; every other member is untouched and nothing else appears.
+//@ define slU(s, update, key, j) = slIn(s, update[j]) && j < len(update[j].next) && (update[j] != s.head ==> cmp(update[j].Entry.Key, key) < 0) && (update[j].next[j] == nil || cmp(update[j].next[j].Entry.Key, key) >= 0)
+//@ func (*skiplist.SkipList).Set
+//@ props C17 C01
+//@ requires SL(s) && wf(entry.Key)
+//@ assigns everything
+//@ ensures SL(s) && s.maxLevel == old(s.maxLevel) && s.head == old(s.head)
+//@ ensures SLMem[ref(s)][SLW] && SLW != ref(s.head) && cmp(cast(P_skiplist_Element, SLW).Entry.Key, entry.Key) == 0 && cast(P_skiplist_Element, SLW).Entry.Value == entry.Value && cast(P_skiplist_Element, SLW).Entry.Tombstone == entry.Tombstone
+//@ ensures old(SLMem)[ref(s)][SLW] ==> (cast(P_skiplist_Element, SLW).Entry.Key == old(cast(P_skiplist_Element, now(SLW)).Entry.Key) && cast(P_skiplist_Element, SLW).Entry.Version == old(cast(P_skiplist_Element, now(SLW)).Entry.Version))
+//@ ensures !old(SLMem)[ref(s)][SLW] ==> (SLW >= old(alloc) && cast(P_skiplist_Element, SLW).Entry == entry)
+//@ ensures forall(Int(x), old(SLMem)[ref(s)][x] ==> SLMem[ref(s)][x], trig(old(SLMem)[ref(s)][x]))
+//@ ensures forall(Int(x), SLMem[ref(s)][x] ==> (old(SLMem)[ref(s)][x] || x == SLW), trig(SLMem[ref(s)][x]))
+//@ ensures forall(P_skiplist_Element(x), (old(SLMem)[ref(s)][ref(x)] && ref(x) != SLW) ==> x.Entry == old(x.Entry), trig(SLMem[ref(s)][ref(x)]))
+//@ loop 0:
+//@   invariant SL(s) && SLMem == old(SLMem) && len(update) == s.maxLevel && arrid(update) >= old(alloc) && offof(update) == 0
+//@   invariant 0 - 1 <= i && i < s.maxLevel && i + 1 <= len(curr.next) && slIn(s, curr) && (curr != s.head ==> cmp(curr.Entry.Key, entry.Key) < 0)
+//@   invariant i == 0 - 1 ==> curr == update[0]
+//@   invariant all(j, i + 1, s.maxLevel, slU(s, update, entry.Key, j))
+//@ loop 1:
+//@   invariant SL(s) && SLMem == old(SLMem) && len(update) == s.maxLevel && arrid(update) >= old(alloc) && offof(update) == 0
+//@   invariant 0 <= i && i < s.maxLevel && i < len(curr.next) && slIn(s, curr) && (curr != s.head ==> cmp(curr.Entry.Key, entry.Key) < 0)
+//@   invariant all(j, i + 1, s.maxLevel, slU(s, update, entry.Key, j))
+//@ after_call types.CompareKeys#1: ghost SLW = ite(result == 0, ref(curr.next[0]), SLW)
+//@ after_call types.CompareKeys#1: assert result != 0 ==> forall(P_skiplist_Element(y), (slIn(s, y) && y != s.head) ==> cmp(y.Entry.Key, entry.Key) != 0, trig(slIn(s, y)))
+// the new node becomes a member as soon as it exists; the representation invariant is restored level
+// by level (loop 3): level 0 first, which is where `exact` is re-established
+//@ after_assign assign e: ghost SLW = ref(e)
+//@ after_assign assign e: ghost SLMem = store(SLMem, ref(s), store(SLMem[ref(s)], ref(e), true))
+//@ define slPairsBut(s, e, k) = forall(P_skiplist_Element(x), P_skiplist_Element(y), (slIn(s, x) && slIn(s, y) && x != y) ==> (arrid(x.next) != arrid(y.next) && ((y != s.head && (x == s.head || cmp(x.Entry.Key, y.Entry.Key) < 0) && (k > 0 || (x != e && y != e))) ==> (x.next[0] != nil && cmp(x.next[0].Entry.Key, y.Entry.Key) <= 0)) && ((x != s.head && y != s.head) ==> cmp(x.Entry.Key, y.Entry.Key) != 0)), trig(slIn(s, x), slIn(s, y)))
+//@ loop 2:
+//@   invariant SL(s) && SLMem == old(SLMem) && len(update) == s.maxLevel && arrid(update) >= old(alloc) && offof(update) == 0 && 1 <= level && level <= s.maxLevel && s.level == old(s.level) && s.level <= i && i <= level
+//@   invariant all(j, 0, s.maxLevel, slU(s, update, entry.Key, j))
+//@   invariant forall(P_skiplist_Element(y), (slIn(s, y) && y != s.head) ==> cmp(y.Entry.Key, entry.Key) != 0, trig(slIn(s, y)))
+//@ loop 3:
+//@   invariant slHdr(s) && slNodes(s) && slLinks(s) && slPairsBut(s, e, rangeint_iter) && s.maxLevel == old(s.maxLevel) && s.head == old(s.head)
+//@   invariant len(update) == s.maxLevel && arrid(update) >= old(alloc) && offof(update) == 0 && 1 <= level && level <= s.level && len(e.next) == level && e != nil && e != s.head && ref(e) >= old(alloc) && arrid(e.next) >= old(alloc) && arrid(e.next) != arrid(update) && slIn(s, e) && e.Entry == entry && SLW == ref(e)
+//@   invariant forall(Int(x), SLMem[ref(s)][x] <==> (old(SLMem)[ref(s)][x] || x == ref(e)), trig(SLMem[ref(s)][x]))
+//@   invariant forall(P_skiplist_Element(x), old(SLMem)[ref(s)][ref(x)] ==> (x.Entry == old(x.Entry) && arrid(x.next) < old(alloc) && x != e), trig(SLMem[ref(s)][ref(x)]))
+//@   invariant all(j, rangeint_iter, level, slU(s, update, entry.Key, j) && update[j] != e && e.next[j] == nil)
+//@   invariant forall(P_skiplist_Element(x), Int(l), (slIn(s, x) && rangeint_iter <= l && l < len(x.next)) ==> x.next[l] != e, trig(x.next[l]))
+//@   invariant all(j, 0, level, update[j] != e && slIn(s, update[j]) && (update[j] != s.head ==> cmp(update[j].Entry.Key, entry.Key) < 0))
+//@   invariant forall(P_skiplist_Element(y), (slIn(s, y) && y != s.head && y != e) ==> cmp(y.Entry.Key, entry.Key) != 0, trig(slIn(s, y)))
